@@ -142,6 +142,11 @@ theorem timing_facts :
     Bmc.Gen.Facts.bmc_retryCalls = 4 ∧ Bmc.Gen.Facts.bmc_retryAllWithContext = true ∧
     Bmc.Gen.Facts.transport_deadlinesFromCtx = 2 := by decide
 
+/-- … and no call anywhere in the library hands a context to a callee other than the enclosing function's own context
+    parameter or one derived from it in the same function by `context.WithTimeout / WithDeadline / WithCancel` (no
+    `context.Background()`, no stored context): the deadline of the caller reaches every blocking step. -/
+theorem context_pass_through : Bmc.Gen.Facts.contextArgsForeign = [] := by decide
+
 example : run 3 10 (fun _ => ⟨5, false, 2⟩) 12 0 0 = some (10, false) := by decide
 example : run 3 10 (fun i => ⟨1, i == 2, 1⟩) 12 0 0 = some (5, true) := by decide
 
